@@ -503,14 +503,11 @@ impl IntoLower for ast::PropertyOp {
         let ty = self
             .operand
             .target_type()
-            .ok_or(Error::MissingAnalyzePhase(format!("{0:?}", self.operand)))?;
+            .ok_or_else(|| Error::MissingAnalyzePhase(format!("{0:?}", self.operand)))?;
 
-        let prop_index =
-            ty.property_index(*self.property.clone())
-                .ok_or(Error::InvalidProperty(
-                    format!("{:?}", self.property),
-                    ty.to_string(),
-                ))?;
+        let prop_index = ty.property_index(*self.property.clone()).ok_or_else(|| {
+            Error::InvalidProperty(format!("{:?}", self.property), ty.to_string())
+        })?;
 
         Ok(ir::Expression::EvalBuiltIn(Box::new(
             ir::BuiltInOp::Property(object, prop_index.into_lower(ctx)?),
